@@ -9,6 +9,7 @@ import (
 	"os"
 	"os/exec"
 	"path/filepath"
+	"runtime/pprof"
 	"sort"
 	"strconv"
 	"strings"
@@ -115,7 +116,13 @@ func main() {
 	workers := flag.Int("j", 16, "parallel jobs")
 	verbose := flag.Bool("v", false, "verbose")
 	noReplay := flag.Bool("noreplay", false, "skip native replay of counterexamples")
+	cpuprof := flag.String("cpuprofile", "", "write a CPU profile")
 	flag.Parse()
+	if *cpuprof != "" {
+		pf, _ := os.Create(*cpuprof)
+		pprof.StartCPUProfile(pf)
+		defer pprof.StopCPUProfile()
+	}
 	if flag.NArg() < 1 {
 		fmt.Fprintln(os.Stderr, "usage: vcheck [flags] <property-id>")
 		os.Exit(2)
@@ -148,6 +155,7 @@ func main() {
 	defer st.Close()
 	code := run(spec, st, *tier, seed, *only, *workers, *verbose, *noReplay, t0)
 	st.Close()
+	pprof.StopCPUProfile()
 	os.Exit(code)
 }
 
